@@ -249,6 +249,9 @@ def faults_for(otype, full=True):
         if s.kind == "kv":
             out.append(("kv_not_object", s.key, "abc"))
     out.append(("unknown_keyword", "zzunknown", 1))
+    # keys that only look hidden: the schemas admit hidden keys of the form __letters__ and nothing else
+    out.append(("unknown_keyword", "__note_1__", 1))
+    out.append(("unknown_keyword", "__ID9__", "x"))
     for r in V.required(otype):
         out.append(("missing_required", r, None))
     for s in V.slots(otype):
